@@ -159,7 +159,7 @@ PROPS = {
                 "checks against own PD tools: components = strand orbits (partition), crossing signs = one of the orientations compatible with the under-strand rule (2^k choices for k over-only components), "
                 "writhe / signed numbers consistent and invariant under renumbering and reordering, negated by mirror, circles of every resolution state (all 2^n for n <= 9, 96 random above) = edge-identification count, "
                 "also after resolving one crossing first (diagram with history), Seifert circles = oriented resolution, is_knot, closure: #crossings = #letters, #components = #cycles, writhe = exponent sum, PD edge-bijective to the own geometric closure; "
-                "non-trivial = >= 2 components or kink / over-only component / split piece; distinct = hash(PD code, switched flags) Link::load / from_pd_code / edges / ori_pres_state against the stored code; chains of resolved_at in random order (i-th unresolved crossing).",
+                "non-trivial = >= 2 components or kink / over-only component / split piece; distinct = hash(PD code, switched flags) Link::load / from_pd_code / edges / ori_pres_state against the stored code; chains of resolved_at in random order (i-th unresolved crossing). Braid-word algebra: inv() is the group inverse, product concatenates, FromIterator / elements / strands / len / Braid::load agree with the word.",
         "assumptions": COMMON_ASSUME + ["every generated diagram must pass the oracle's PD validator (2 ends per edge, coherent orientation, planarity by Euler characteristic); a rejected diagram is a generator fault, never a verdict"],
         "technique": "reference-model monitor: yui-link routines on table and derived diagrams judged by own union-find / orientation-propagation / state-circle counting and an own braid closure",
         "level_text": "Exploration: every shipped diagram plus tens of thousands of derived diagrams per run (millions of resolution states), each judged by an independent combinatorial model built from the raw PD code. Right level: input property with an exact, cheap oracle.",
@@ -205,7 +205,7 @@ PROPS = {
                 "conjugation, Markov stabilisation/destabilisation of either sign) and table PD codes (<= 10 crossings) under 1-6 PD-level moves (edge relabelling, crossing permutation, global orientation reversal [a,b,c,d]->[c,d,a,b], "
                 "Reidemeister I kinks of the four kinds); rings i64, BigInt, Ratio<i64>, FF2, FF<3>; reduced for knots; pools of 1,4,16 threads; checks: bigraded table (homology of the bigraded pieces) of D = table of M.D; "
                 "table(mirror D) = free (i,j)->(-i,-j), torsion (i,j)->(1-i,-j); table of 'PD code of name N' = table of 'closure of braid word of name N' up to mirror; "
-                "soundness of the generator: both diagrams pass the oracle validator and have the same ORACLE bracket polynomial (else inconclusive); non-trivial = at least one move other than conjugation and >= 3 crossings; distinct = hash(D, M.D, reduced) One moved diagram in six (<= 9 crossings) is built divide-and-conquer (TngComplex::connect).",
+                "soundness of the generator: both diagrams pass the oracle validator and have the same ORACLE bracket polynomial (else inconclusive); non-trivial = at least one move other than conjugation and >= 3 crossings; distinct = hash(D, M.D, reduced) One moved diagram in six (<= 9 crossings) is built divide-and-conquer (TngComplex::connect). One braid-level pair in five gets an additional conjugation g*b*g^-1 carried out with the library's own braid algebra (Braid product, Braid::inv).",
         "assumptions": COMMON_ASSUME + ["Reidemeister II/III are exercised at braid level (sigma sigma^-1 and the braid relation), Reidemeister I at both levels", "the two resource tables may follow different chirality conventions: equality is required only up to mirror there"],
         "technique": "metamorphic monitor: two real Khovanov computations related by generated isotopy moves / mirroring must agree; move generator validated against an independent bracket-polynomial oracle",
         "level_text": "Exploration of diagrams and move histories: thousands (quick) to hundreds of thousands of (diagram, move sequence, ring) tuples. The relation itself is the oracle; soundness rests on the generator, which is checked on every case by an independent invariant. Right level: the property quantifies over all move sequences, which can only be sampled.",
@@ -218,7 +218,7 @@ PROPS = {
         "rule": "links: torus links T(2,5)..T(6,7) (odd and composite torsion; T(6,7) = 35 crossings), every 5th table diagram with <= 10 crossings (quick) / all <= 11, closures of random braid words (<= 11/14 letters, optionally one switched crossing); "
                 "for each link 14 real computations: bigraded tables by both library routes (homology of bigraded pieces / total homology split by generator q-degree) over i64, BigInt, i128, Ratio<i64>, FF2, FF<2>, FF<3>, reduced over i64 and FF2; "
                 "relations checked: two routes agree (Z, Q, F2, F3, reduced Z), i64 = i128 = BigInt, FF2 = FF<2>, rank_Q = free rank_Z, dim_Fp(i,j) = rank_Z(i,j) + #{p | torsion in (i,j)} + #{p | torsion in (i+1,j)}, "
-                "F2 unreduced = reduced (x) unknot; non-trivial = torsion present or >= 2 components; distinct = hash(PD, flags) For <= 9 crossings the Z and F3 tables are also assembled column by column from KhComplex::truncated(i-1..=i+1) windows and must equal the tables of the whole complex.",
+                "F2 unreduced = reduced (x) unknot; non-trivial = torsion present or >= 2 components; distinct = hash(PD, flags) For <= 9 crossings the Z and F3 tables are also assembled column by column from KhComplex::truncated(i-1..=i+1) windows and must equal the tables of the whole complex. Fixed workload also contains split unions / connected sums of torus links (T(4,5) with T(2,3) or T(2,5), T(3,5) with T(3,4)): torsion of different orders in one homological degree.",
         "assumptions": COMMON_ASSUME + ["the relations are necessary conditions between library results (no external oracle here; C01 ties the tables to the definition for small diagrams)", "finding keys include the link so that a different link failing the same relation is reported as a new violation"],
         "technique": "metamorphic / cross-configuration monitor: the same link computed over seven coefficient types and by two routes; universal-coefficient arithmetic evaluated by the monitor",
         "level_text": "Exploration: hundreds to thousands of links, each computed 14 ways; the relations of the statement are evaluated exactly on the results. Right level: the property relates configurations of real runs; the first known counterexample needs a 35-crossing input far beyond unit tests, which the torus family reaches.",
@@ -243,7 +243,7 @@ PROPS = {
                 "every generator in h-degree 0, d z = 0, and for h != 0 the class is non-torsion (rank[d_-1 | z] = rank d_-1 + 1 by own elimination modulo 2^31-1 on the exported matrices); "
                 "(b) links (table, split unions, switched crossings): homology with (h,t) = (1,0) over Z free of total rank 2^{#components}, with (0,1) over Q of total rank 2^{#components} (components counted by the oracle); "
                 "(c) ss_invariant for c = 2, 3 over i64, c = 2 over BigInt, c = H over F2[H], F3[H], Q[H]: reduced = unreduced, ss(mirror) = -ss, unchanged by 1-4 PD moves (relabel, permute, reverse, R1; bracket-checked), "
-                "ss(K-) <= ss(K+) <= ss(K-) + 2 for a random crossing of every diagram, 0 on kinked unknots; non-trivial = >= 3 crossings (or >= 2 components for (b)); distinct = hash of the diagram(s) and parameters In the reduced theory half of the canonical-cycle cases mark a random edge as base point through the public TngComplexBuilder.",
+                "ss(K-) <= ss(K+) <= ss(K-) + 2 for a random crossing of every diagram, 0 on kinked unknots; non-trivial = >= 3 crossings (or >= 2 components for (b)); distinct = hash of the diagram(s) and parameters In the reduced theory half of the canonical-cycle cases mark a random edge as base point through the public TngComplexBuilder. A third of the canonical-cycle cases compute only the window -1..=1 (set_h_range before or after the crossings are absorbed); for h != 0 the degree-0 homology must have rank 2 (reduced: 1).",
         "assumptions": COMMON_ASSUME + ["absolute values of ss are pinned only for unknots; otherwise relations between real runs are checked", "for h = 0 a vanishing canonical cycle is legitimate (the property demands non-torsion only for h != 0)"],
         "technique": "reference-model + metamorphic monitor: canonical cycles checked on exported matrices with own modular rank; ss compared across isotopic diagrams, variants, mirror and crossing changes",
         "level_text": "Exploration: thousands to hundreds of thousands of knot diagrams, crossings and move sequences; cycle conditions are decided exactly, the s-invariant through the relations the statement lists. Right level: input/history/configuration property.",
@@ -270,7 +270,7 @@ PROPS = {
                 "the real ykh binary built from the tree is run per sample; for supported combinations the stdout table is parsed independently (fields = runs of >= 2 spaces; cell -> ring symbol, rank, multiset of torsion strings; '.' / '0' = zero cell) "
                 "and compared in both directions with KhHomology / KhComplex::gen_grid computed in-process over the ring implied by (-t,-c) (own dispatch table, own -c splitting rule): kh always cell by cell; "
                 "ckh cell by cell for h=t=0 and through the (graded) Euler characteristic otherwise, because the simplified complex is not canonical for deformations; unsupported ring for kh (Z[H], any [H,T]), reduced with t != 0, "
-                "malformed -c, bad link input and library panics must give exit != 0, a message on stderr and no table on stdout; non-trivial = non-default option or an error class; distinct = hash(argv)",
+                "malformed -c, bad link input and library panics must give exit != 0, a message on stderr and no table on stdout; non-trivial = non-default option or an error class; distinct = hash(argv) The -c values include signed entries inside a pair (1,-1; -1,1; 2,-3; ...); t = 0 for the reduced theory is judged in the coefficient ring.",
         "assumptions": COMMON_ASSUME + [
             "the expectation for a supported combination is the library called in-process with the same parameters (the property is about the command reporting the library's result; C01-C05 tie the library to the mathematics)",
             "ckh with numeric deformation prints a run-dependent (hash-order dependent) simplified complex even on the unchanged tree; only homotopy-invariant quantities are compared there",
